@@ -214,6 +214,42 @@ def run_history(cfg, ops, workdir, keep=False):
                 for pre, r in pre_results:
                     trace.append(f"{pre}\t{r}")
                 continue
+            if o.startswith("stress "):
+                # stress <s> <t> <pid> <producers> <consumers> <batches> <maxbatch> <seed> <bgsave> <idbase>
+                # concurrent real clients (harness), then: the log of every request with its real-time
+                # stamps, a linearisation (acknowledged batches in the order of the offsets they got),
+                # which the judge validates and replays on the model, and a full poll.
+                f = o.split()
+                logf = workdir + ".stress"
+                r = node.op(o + " " + logf)
+                trace.append(f"{o}\t{r}")
+                if not r.startswith("ok"):
+                    break
+                with open(logf) as fh:
+                    xl = [l.rstrip("\n") for l in fh if l.strip()]
+                os.remove(logf)
+                trace.extend(xl)
+                full = f"poll 0 {f[1]} {f[2]} {f[3]} c:#1 offset:0 1000000 0"
+                fr = node.op(full)
+                where = {}
+                ft = fr.split(" ")
+                if ft[0] == "ok" and len(ft) > 3:
+                    for e in ft[3].split(","):
+                        q = e.split(":")
+                        where.setdefault(int(q[1]), int(q[0])) if len(q) > 1 and q[1].isdigit() else None
+                acks = []
+                for l in xl:
+                    if l.startswith("x-ack "):
+                        op_, res = l.split("\t")
+                        t = op_.split(" ")
+                        first = int(t[8].split(",")[0].split(":")[0])
+                        acks.append((where.get(first, 1 << 60), int(t[1]), "x-lin " + " ".join(t[1:])))
+                acks.sort()
+                for _, _, lin in acks:
+                    trace.append(lin + "\tok")
+                trace.append(f"x-end {f[1]} {f[2]} {f[3]}\tok")
+                trace.append(f"{full}\t{fr}")
+                continue
             r = node.op(o)
             trace.append(f"{o}\t{r}")
             if r == "died":
